@@ -1052,8 +1052,15 @@ class Tensor(object):
     """
 
     def _process_key(self, key: Union[Sequence[int], torch.Tensor, int, Any]):
+        def is_0d(k):
+            return isinstance(k, (torch.Tensor, np.ndarray)) and k.ndim == 0
+
+        if is_0d(key):  # A 0-d integer array is an integer
+            key = int(key)
         if not hasattr(key, "__len__"):
             key = (key,)
+        if isinstance(key, (list, tuple)) and any(is_0d(k) for k in key):
+            key = type(key)(int(k) if is_0d(k) else k for k in key)
         fancy = False
         if isinstance(key, torch.Tensor):
             key = key.detach().numpy()
